@@ -438,9 +438,7 @@ pub fn run_model(scn: &E1Scn) -> ModelResult {
         let exit_ready = m.running_child().and_then(|k| m.children[k as usize].death.map(|d| (k, d.0))).filter(|(_, at)| *at <= m.now);
         let timer_past = m.timer.map(|(d, _, _)| d <= m.now).unwrap_or(false);
         let ctl_ready = timer_past || !m.q[2].is_empty() || !m.q[1].is_empty() || (m.timer.is_none() && !m.q[0].is_empty());
-        if exit_ready.is_some() && ctl_ready {
-            return ModelResult::Ambiguous("a process end and a runnable control are ready at the same instant");
-        }
+        // (impl, since fix S12) the end of the process is observed before the next control is handled
         if let Some((k, _)) = exit_ready {
             m.handle_exit(k);
             continue;
